@@ -70,8 +70,8 @@ def gen_op(rng, state):
     syms = state["symbols"]
     op = rng.choices(
         ["reg", "reset", "remove", "reg_bad", "reg_dup_class", "reg_builtin_symbol", "reg_invalid_symbol", "reg_builtin_class",
-         "remove_builtin", "set_default", "reset_defaults", "parse", "echo"],
-        [6, 4, 3, 2.0, 1.2, 1, 1, 1, 1, 1.5, 1.2, 1.5, 2.5],
+         "remove_builtin", "set_default", "reset_defaults", "parse", "echo", "reg_malformed"],
+        [6, 4, 3, 2.0, 1.2, 1, 1, 1, 1, 1.5, 1.2, 1.5, 2.5, 1.0],
     )[0]
     if op == "echo" and state["last_reg"] is not None:
         # right after a membership change: the same symbol again with the private flag flipped
@@ -87,6 +87,11 @@ def gen_op(rng, state):
         if rng.random() < 0.4:
             return {"op": "register", "symbol": rng.choice(syms), "cls": 3, "good": "subtle", "private": False}
         return {"op": "register", "symbol": rng.choice(syms), "cls": 2, "good": False, "private": False}
+    if op == "reg_malformed":
+        # a malformed definition (refused for a reason other than its impedance), with or without the caller
+        # opting out of the impedance validation for this one call: whatever the refusal leaves behind meets later registrations
+        return {"op": "register_malformed", "symbol": rng.choice(syms), "kind": rng.choice(["empty_name", "bad_equation", "dup_params"]),
+                "validate": rng.choice([None, False, False, True]), "private": rng.random() < 0.3}
     if op == "reg_dup_class":
         return {"op": "register", "symbol": rng.choice(syms), "cls": 1, "good": True, "private": rng.random() < 0.3}
     if op == "reg_builtin_symbol":
@@ -257,6 +262,30 @@ def apply(state, rec):
                 state["last_reg"] = (s, bool(rec["private"]))
             else:
                 stats["refused"]["register_" + ("inconsistent" if inconsistent else "duplicate_symbol")] += 1
+        elif op == "register_malformed":
+            from pyimpspec import ElementDefinition, ParameterDefinition
+
+            sym = rec["symbol"]
+            kind = rec["kind"]
+            params = [ParameterDefinition("R", "ohm", "resistance", 1.0, 0.0, np.inf, False)]
+            name, eq = "user element", "R"
+            if kind == "empty_name":
+                name = ""
+            elif kind == "bad_equation":
+                eq = "R +* (2"
+            elif kind == "dup_params":
+                params = params + [ParameterDefinition("R", "ohm", "resistance again", 2.0, 0.0, np.inf, False)]
+            elif kind == "no_params_equation":
+                eq = "R * Q_unknown"
+            kw = {"private": rec["private"]}
+            if rec["validate"] is not None:
+                kw["validate_impedances"] = rec["validate"]
+            try:
+                register_element(ElementDefinition(Class=_mkclass(True), symbol=sym, name=name, description="user element", equation=eq, parameters=params), **kw)
+            except Exception:
+                stats["refused"]["register_malformed_" + kind] += 1
+            else:
+                return _viol("refused-op-accepted", rec, f"register_element accepted a malformed definition ({kind})", kind="malformed-" + kind)
         elif op == "register_builtin_symbol":
             try:
                 register_element(_mkdef(_mkclass(True), rec["symbol"]))
